@@ -67,7 +67,7 @@ def reduceFibre (s y : List (Cpx R)) : Cpx R := (List.zipWith (fun si yi => cmul
 
 /-- `_complex_matrix_multiplication` from four real products `mm` (`torch.mm` / `torch.bmm`):
 `(mm(Ar,Br) - mm(Ai,Bi)) + i (mm(Ar,Bi) + mm(Ai,Br))` -/
-def cmmWith {M : Type} [Add M] [Sub M] (mm : M → M → M) (Ar Ai Br Bi : M) : M × M :=
+def cmmWith {M N P : Type} [Add P] [Sub P] (mm : M → N → P) (Ar Ai : M) (Br Bi : N) : P × P :=
   (mm Ar Br - mm Ai Bi, mm Ar Bi + mm Ai Br)
 
 end Scalar
@@ -150,6 +150,15 @@ def expandOp (data sens : Tensor (Cpx R)) (dim : Int) : Tensor (Cpx R) :=
 
 /-- square of `root_sum_of_squares(data, dim)` on complex data: `(data**2).sum(complex_dim).sum(dim)` -/
 def rssSqT (data : Tensor (Cpx R)) (dim : Int) : Tensor R := sumAxis (modSqT data) dim
+
+/-- `modulus(data, complex_axis)` squared, on the real-layout tensor: `(data ** 2).sum(complex_axis)` -/
+def modSqAxis (t : Tensor R) (complexAxis : Int) : Tensor R := sumAxis (mapT (fun x => x * x) t) complexAxis
+
+/-- `root_sum_of_squares(data, dim, complex_dim)` squared, on the real-layout tensor, as coded:
+data whose *last* axis has length 2 is taken to be complex -/
+def rssSqReal (t : Tensor R) (dim complexDim : Int) : Tensor R :=
+  if t.shape.getLast? = some 2 then sumAxis (sumAxis (mapT (fun x => x * x) t) complexDim) dim
+  else sumAxis (mapT (fun x => x * x) t) dim
 
 /-- real matrix product on row lists (what `torch.mm` computes) -/
 def rmm (A B : List (List R)) : List (List R) :=
